@@ -32,7 +32,10 @@ static const uint32_t kIf[2] = {0, 0x8000000Au};             // 0 (what a zeroed
 static Packet cmPacket(int d, int v)
 {
     CaptureModulePayload p;
-    p.setUptime(0x1000 + d * 16 + v);
+    // the two variants disagree about "later": the second has the greater header timestamp and the SMALLER uptime (as after a restart of
+    // the device), so going from one to the other either way moves the two clocks in opposite directions - the tracker keeps the
+    // latest message by arrival, whatever the contents say
+    p.setUptime(0x1000 + d * 16 + (1 - v));
     p.setData(fmt("dev%d", d), fmt("sn%d%c", d, 'a' + v), "hw", v ? "sw-b" : "sw-a", {(uint8_t) d, (uint8_t) v});
     Packet k;
     k.setPayload(p);
@@ -55,7 +58,7 @@ static Packet ifPacket(int d, int i, int v)
 {
     InterfacePayload p;
     p.setInterfaceId(kIf[i]);
-    p.setMsgTotalRx(1000 + d * 100 + i * 10 + v);
+    p.setMsgTotalRx(1000 + d * 100 + i * 10 + (1 - v));   // counters go down where the timestamp goes up (see cmPacket)
     uint8_t s[2] = {(uint8_t) i, (uint8_t) v};
     p.setData(s, 2, nullptr, 0);
     Packet k;
